@@ -237,6 +237,7 @@ class PathCtx:
                 self.forks = []
                 self.facts = dict(saved[3])
                 self.wit = saved[4]
+                self.approx_false = False
                 self.path_prefix = base
                 try:
                     fn()
@@ -289,7 +290,9 @@ class PathCtx:
         if isinstance(cond, Approx):
             approx = True
             cond = cond.cond
-        if cond is True:
+        if cond is True and self.approx_false and self.in_spec:
+            ob = Obligation(name, 'undecided', detail=detail + ' (depends on a string equality the rope model cannot decide)')
+        elif cond is True:
             ob = Obligation(name, 'discharged', detail=detail, solver='syntactic')
         else:
             if cond is False:
